@@ -1238,13 +1238,14 @@ func main() {
 		ID:        "C03",
 		Title:     "Native and JSON syntaxes denote the same configuration",
 		Technique: "bounded exhaustive enumeration of abstract configurations x every admissible JSON encoding x hcldec spec table; differential native vs JSON on the real decoder, comparability decided by a reference reading of both syntaxes",
-		Rule: "abstract configurations (gen/absconf): the empty body; every literal of a pool (33 quick / 51 thorough: numbers incl. fraction, exponent, 23-digit integer and numbers that need more than 53 bits / 17 significant digits (9007199254740993, 8.000000000000003, 123456789012345678, 18446744073709551615, 0.1000000000000000055511151231257827, 1e-7, -0.0), also nested in lists and objects; strings incl. escapes, non-ASCII, '$' and '%' without template sequences; bool; null; nested lists/objects incl. an object key \"//\") as top-level attribute, beside a second attribute and inside an unlabelled and a labelled block body; all sequences of <= 3 blocks over the types x,y for the label arities (x,y) in {00,10,01,11,20,21} with labels from {k,m}, each block with a distinguishing body (quick: arities 11,20,21 only <= 2 blocks; thorough: arities 00,10,01 up to 4 blocks and the label \"//\"), alone and with an attribute interleaved at the start and before the last block (quick, <= 2 blocks) / at every position (thorough, <= 3 blocks); one or two x blocks (unlabelled / labelled) over 7 nested bodies holding attributes and y blocks (nesting <= 2; quick: the smaller pairs); 23 kind-clash configurations (attribute named like a block type, block named like an attribute, items no spec mentions); the 'deep' family: block type x with 3, 4 and 5 labels over {k,m}: the all-k tuple followed by every label tuple (2 blocks: siblings that part at every level, at several levels, identical labels) and all-k followed by every pair of tuples that differ from all-k at no or exactly one level (3 blocks: siblings at the deepest level under one parent next to siblings at intermediate levels; thorough: every pair of tuples for 4 labels). " +
+		Rule: "abstract configurations (gen/absconf): the empty body; every literal of a pool (33 quick / 51 thorough: numbers incl. fraction, exponent, 23-digit integer and numbers that need more than 53 bits / 17 significant digits (9007199254740993, 8.000000000000003, 123456789012345678, 18446744073709551615, 0.1000000000000000055511151231257827, 1e-7, -0.0), also nested in lists and objects; strings incl. escapes, non-ASCII, '$' and '%' without template sequences; bool; null; nested lists/objects incl. an object key \"//\") as top-level attribute, beside a second attribute and inside an unlabelled and a labelled block body; all sequences of <= 3 blocks over the types x,y for the label arities (x,y) in {00,10,01,11,20,21} with labels from {k,m}, each block with a distinguishing body (quick: arities 11,20,21 only <= 2 blocks; thorough: arities 00,10,01 up to 4 blocks and the label \"//\"), alone and with an attribute interleaved at the start and before the last block (quick, <= 2 blocks) / at every position (thorough, <= 3 blocks); one or two x blocks (unlabelled / labelled) over 7 nested bodies holding attributes and y blocks (nesting <= 2; quick: the smaller pairs); 23 kind-clash configurations (attribute named like a block type, block named like an attribute, items no spec mentions); the 'defs' family (18 configurations): the attribute sets {b}, {a,b}, {b, a=null} at the top level (alone / beside an x block) and in the body of an unlabelled / labelled x block (alone / beside an empty sibling); the 'deep' family: block type x with 3, 4 and 5 labels over {k,m}: the all-k tuple followed by every label tuple (2 blocks: siblings that part at every level, at several levels, identical labels) and all-k followed by every pair of tuples that differ from all-k at no or exactly one level (3 blocks: siblings at the deepest level under one parent next to siblings at intermediate levels; thorough: every pair of tuples for 4 labels). " +
 			"x every admissible JSON encoding = the full choice tree of absconf.Encodings: per repeated block {new property with a duplicate name | joined to the latest property of its type, adjacent or across other blocks} x per label level {equal adjacent labels share a property | duplicate label names} x {object | array of objects with every order-preserving cut (above 3/4 properties only the one-property-per-element cut)} per label level and for the top-level body x {body object | one-element array} per single block; plus the decorations {\"//\" comment first | last in every body object | a degenerate \"x\"/\"y\": [] | \"x\"/\"y\": null property} on the three fixed structures plain, compact and arrays (thorough: on every structure for configurations of <= 4 items). Where the native reading already violates the schema only the fixed structures x all decorations are tried (nothing but 'also an error' can be checked there). In the deep family the object/array, cut and one-element-array choices are made once per document (all label levels alike) while the join and duplicate-label choices, which decide which blocks are siblings in one JSON object, stay independent per block and level. " +
-			"x 42 hcldec specs for the ordinary families (AttrSpec dynamic/typed/required, TupleSpec, DefaultSpec incl. required parts, LiteralSpec, BlockSpec, BlockListSpec with Min/Max, BlockSetSpec, BlockTupleSpec, BlockAttrsSpec, BlockMapSpec and BlockObjectSpec with 1 and 2 labels, BlockLabelSpec under list/block/tuple/set/map, ObjectSpec/TupleSpec combinations, nested block specs); every configuration meets every spec, which yields the schema perturbations (missing required, extra attribute/block, wrong label count, attribute where a block is expected and vice versa); the deep family meets 12 specs of its own (for n = 3,4,5 labels: BlockListSpec with a BlockLabelSpec for every label index, BlockMapSpec and BlockObjectSpec with n label names, BlockMapSpec with 2 label names plus BlockLabelSpecs for the other n-2) and 3 ordinary ones as label-count mismatches. " +
+			"x 42 hcldec specs for the ordinary families (AttrSpec dynamic/typed/required, TupleSpec, DefaultSpec incl. required parts, LiteralSpec, BlockSpec, BlockListSpec with Min/Max, BlockSetSpec, BlockTupleSpec, BlockAttrsSpec, BlockMapSpec and BlockObjectSpec with 1 and 2 labels, BlockLabelSpec under list/block/tuple/set/map, ObjectSpec/TupleSpec combinations, nested block specs); every configuration meets every spec, which yields the schema perturbations (missing required, extra attribute/block, wrong label count, attribute where a block is expected and vice versa); the deep family meets 12 specs of its own (for n = 3,4,5 labels: BlockListSpec with a BlockLabelSpec for every label index, BlockMapSpec and BlockObjectSpec with n label names, BlockMapSpec with 2 label names plus BlockLabelSpecs for the other n-2) and 3 ordinary ones as label-count mismatches; " +
+			"29 specs that describe one attribute or one block type more than once in the same body (TupleSpec with the attribute a described as optional/required in every combination and both visiting orders, with equal and differing types, two and three descriptions, a and b crosswise; ObjectSpec likewise; DefaultSpec whose Primary and Default name the same attribute with every combination of Required, chained and bare; the same across composite kinds; the same inside the nested spec of a BlockListSpec / BlockObjectSpec; the block type x described by two block specs of the same label count: list+set, block+list, required block+tuple, DefaultSpec over two BlockSpecs, two lists whose nested specs differ in Required, map+object, list with a BlockLabelSpec+object, two BlockAttrsSpecs) meet the families empty, lit, defs, clash, nest and the block families with arities 00 and 10 (thorough: every ordinary family). " +
 			"A case = (configuration, spec) and covers all its encodings; non-trivial = at least one encoding comparable or both-must-error; distinct = distinct (spec, decoded value, content, comparability counts) observations.",
 		Assumptions: []string{
 			"go-cty value equality (RawEquals) and number parsing are trusted",
-			"hcldec.ImpliedSchema is cross-checked against the harness's own walk of the spec tree at start-up",
+			"hcldec.ImpliedSchema is cross-checked against the harness's own walk of the spec tree at start-up (same attribute names, an attribute required iff some listed entry of that name is; same block types and label counts); how often it lists a name is left to the differential oracle",
 			"comparability (same denotation under the schema) is decided by ref/refbody, written from spec.md and json/spec.md; pairs it calls by-design different or unspecified are executed (panic-freedom) but not compared",
 		},
 		Gen:    gen,
